@@ -288,7 +288,7 @@ def shape_rule(ck, facts, accept=None):
                 shape = d2.tag[2][4][0]
                 out += [Sym("shape-is", shape == ("tup", (n.key(), n.key())))]
             else:
-                out += [Sym("cmp", "Eq", vkey(Sym("m", "dim", vkey(d2), ())), vkey(Tup([n, n])))]
+                out += [cel.eq_sym(Sym("m", "dim", vkey(d2), ()), Tup([n, n]))]
         return out
 
     def run_case(key, fn, args, leaf_invariants, where_fn=None):
@@ -358,11 +358,11 @@ def shape_rule(ck, facts, accept=None):
         # derived PartialEq of Ccy compares the interned names
         na = a.fields["name"] if isinstance(a, Rec) else Sym("field", vkey(a), "name")
         nb = b.fields["name"] if isinstance(b, Rec) else Sym("field", vkey(b), "name")
-        return Sym("cmp", "Eq", vkey(na), vkey(nb))
+        return cel.eq_sym(na, nb)
     run_case("FXPair::try_new", "fx::rates::fxpair::FXPair::try_new", [Sym("param", "lhs"), Sym("param", "rhs")], inv_pair)
     pm = Sym("ctor", "FXPairDataModel", Sym("m0"), Sym("m1"))
     run_case("FXPair::try_from(model)", "<fx::rates::fxpair::FXPair as std::convert::TryFrom<fx::rates::fxpair::FXPairDataModel>>::try_from", [pm],
-             lambda x: [Sym("not", vkey(Sym("cmp", "Eq", vkey(x.tag[2]), vkey(x.tag[3]))))] if isinstance(x, Sym) and x.tag[:2] == ("ctor", "FXPair") and len(x.tag) == 4 else [Sym("not-a-pair")])
+             lambda x: [Sym("not", vkey(cel.eq_sym(x.tag[2], x.tag[3])))] if isinstance(x, Sym) and x.tag[:2] == ("ctor", "FXPair") and len(x.tag) == 4 else [Sym("not-a-pair")])
 
     # ---- PPSpline loader: n = |t| - k with k >= 1, t non-decreasing with >= 2 knots, and |c| = n when coefficients are present
     fn = "<splines::spline::PPSpline<T> as std::convert::TryFrom<splines::spline::PPSplineDataModel<T>>>::try_from"
@@ -377,7 +377,7 @@ def shape_rule(ck, facts, accept=None):
     inv = {lit(cel.cmp_sym("Lt", LT, Poly.const(2), True), False),
            (("sym", "forall", vkey(Sym("zip", vkey(T_), vkey(Sym("skip", vkey(T_), Poly.const(1).key())))), vkey(cel.cmp_sym("Le", tel(q0), tel(q0 + Poly.const(1))))), True),
            lit(cel.cmp_sym("Lt", K, Poly.const(1), True), False),
-           lit(Sym("cmp", "Eq", vkey(Sym("checked", "sub", LT.key(), K.key())), vkey(Sym("ctor", "Some", N))), True)}
+           lit(cel.eq_sym(Sym("checked", "sub", LT.key(), K.key()), Sym("ctor", "Some", N)), True)}
     inv_c = lit(cel.cmp_sym("Eq", Poly.atom(("len", vkey(CV), None)), N), True)
     n_ok_paths = []
     for cname, cval, want in (("c=None", Sym("ctor", "None"), inv), ("c=Some", Sym("ctor", "Some", CV), inv | {inv_c})):
